@@ -4,6 +4,11 @@ import json, os
 ROOT = os.path.dirname(os.path.dirname(os.path.abspath(__file__)))
 props = [json.loads(l) for l in open(ROOT + "/properties.jsonl")]
 CLAIMED = {
+ "C05": dict(
+   technique="Lean 4 proofs (case analysis + functional/fuel induction, Mathlib field with exact-rational literal folding) that each modelled constructor builds the requested operation; hand model tied by exact-tree correspondence on generated operand tuples; value oracle through the denotational eval",
+   text="Model/Construct.lean transcribes __new__/__init__ of Sum, Product, Division, Power, Abs, Conj, Real, Imag, Indexed with every _simplify_indexed hook, IndexSum, ComponentTensor, ListTensor (both collapse rules), Conditional and the conditions. Proved for every operand, valuation, index environment and component, over any field of characteristic 0: C05_mkSum, C05_mkProduct, C05_mkDivision, C05_mkIndexSum (incl. pushing the sum into a factor), C05_mkIndexed_partial (zero folding, distribution over sums, indexing under index sums without capture, list-tensor row selection; the as_tensor(C[kk],jj)[is] shortcut is excluded), C05_mkComponentTensor, C05_mkConditional, C05_mkListTensor_partial, plus closure of well-formedness (WF) and the base lemma eval_congr (a value depends on the index environment only through the free indices). The model is compared tree-for-tree with the live constructors on ~3-4k generated operand tuples per run (zeros with free indices, both literal kinds, re-used Index objects, collapse near-misses, malformed operands), and the value/shape/free indices of every built expression and of the public operators T[key] and a*b are checked against the operand values. Four genuine defects were found and repaired by fix: commits (Abs self-reference, ListTensor collapse ignoring the binder, IndexSum index capture; see known_findings.json).",
+   note="Trusted: Lean kernel; harness (gen.py, uflio.py, props/c05.py), Drivers/Expr.lean; Python float arithmetic in literal folding modelled as exact rationals; object identity in the ListTensor rules modelled by structural equality. Not modelled (counted as unsupported and skipped, or oracle-only): complex literals, math-function literal folding, non-integer literal powers, the fresh-index branches of the public operators (_mult, _getitem, _div, as_tensor) which are covered by the value oracle only, compound tensor-algebra constructors (C06).",
+   design="5 C05"),
  "C29": dict(
    technique="Lean 4 proof (mutual structural induction + lexicographic-composition lemma over 'consistent triples') that the model of cmp_expr is a total preorder; typecode table regenerated; correspondence of cmp_expr on generated pairs",
    text="Expr.cmp models cmp_expr (typecode, arity, operands last-to-first, the five terminal comparators incl. repr comparison). Theorems for all expressions of any size: reflexive (C29_refl, which is what makes the implementation's identity shortcuts and equal-pairs memo sound), every triple consistently ranked (C29_consistent), hence antisymmetric, transitive, ties are a congruence, and the two-operand canonical sort used by Sum/Product/Inner is independent of the operand order whenever the operands do not tie (C29_sort2_order_independent). Typecode injectivity is re-checked by decide over the regenerated table. cmp_expr is compared with the model on thousands of ordered pairs per run (one-edit variants, shared sub-objects, equal-but-distinct rebuilds, different-rank indexing); the oracle checks antisymmetry/transitivity and a+b==b+a, a*b==b*a, inner(a,b)==conj(inner(b,a)) on the implementation. The intransitivity found on the pinned tree was repaired by a fix: commit.",
